@@ -34,6 +34,13 @@ type LiveOpts struct {
 	Oracles     map[string]bool
 }
 
+// pinCall is a call that may hand out a handle or watcher for a name: from
+// its invoke to its return the name may become pinned at any moment.
+type pinCall struct {
+	invoke, ret int64 // ret 0: still in flight
+	ok          bool
+}
+
 type inst struct {
 	stamp   int64
 	version uint32 // 0: dropped
@@ -91,7 +98,8 @@ type live struct {
 	readStamp  map[string]int64 // stamp of the read that set lastRead
 	pinnedAt   map[string]int64 // stamp at which a handle was first handed out (this process)
 	readerBusy map[int]bool
-	lastRead   map[string]int64 // model last access, store-clock unix seconds
+	pinCalls   map[string][]*pinCall // calls that can hand out a handle, per name (this process)
+	lastRead   map[string]int64      // model last access, store-clock unix seconds
 	isDeclared map[string]bool
 
 	nAbsorbed int
@@ -103,13 +111,14 @@ type live struct {
 	bvMu      sync.Mutex
 	nBuilt    int
 
-	closed      bool
-	generation  int // store process generation (restarts)
-	tasksBusy   int
-	refreshes   int
-	epochSnap   map[string]bool
-	epochSnapAt int64
-	lastRefresh struct {
+	closed       bool
+	generation   int // store process generation (restarts)
+	tasksBusy    int
+	refreshes    int
+	coalesceFrom int64 // requests before this stamp belong to an earlier process
+	epochSnap    map[string]bool
+	epochSnapAt  int64
+	lastRefresh  struct {
 		ok    bool
 		start int64
 		end   int64
@@ -129,7 +138,7 @@ func RunLive(s *kernel.Sim, o LiveOpts) *World {
 	t := w.T
 	s.SetFree(false)
 	l := &live{w: w, o: &o, t: t, handles: map[string]setec.Secret{}, handedOut: map[string]bool{}, lastRead: map[string]int64{},
-		pinnedAt: map[string]int64{}, readerBusy: map[int]bool{}, readStamp: map[string]int64{},
+		pinnedAt: map[string]int64{}, readerBusy: map[int]bool{}, readStamp: map[string]int64{}, pinCalls: map[string][]*pinCall{},
 		isDeclared: map[string]bool{}, prevDoc: map[string]uint32{}, installs: map[string][]inst{}}
 
 	names := w.DrawNames(t.Range(2, 5))
@@ -240,7 +249,7 @@ func RunLive(s *kernel.Sim, o LiveOpts) *World {
 				add(3, "tick", func() { l.tick() })
 			}
 			add(3, "refresh", func() { l.refresh() })
-			if w.InFlight() == 0 {
+			if w.InFlight() == 0 && w.FlightsIdle() {
 				add(3, "svc-change", func() { l.svcChange() })
 			}
 			if o.Lookup && len(l.pool) > 0 {
@@ -360,10 +369,12 @@ func (l *live) construct() bool {
 		return false
 	}
 	l.generation++
+	l.coalesceFrom = w.StampNow()
 	l.closed = false
 	l.handles = map[string]setec.Secret{}
 	l.handedOut = map[string]bool{}
 	l.pinnedAt = map[string]int64{}
+	l.pinCalls = map[string][]*pinCall{}
 	// names fetched fresh during construction are stamped "now"
 	for _, r := range w.Svc.ReqsSince(0)[before:] {
 		if r.Served != 0 {
@@ -381,11 +392,39 @@ func (l *live) construct() bool {
 }
 
 func (l *live) takeHandle(n string) {
+	pc := l.beginPin(n)
 	h := l.w.Store.Secret(n)
+	l.endPin(pc, h != nil)
 	if h != nil {
 		l.handles[n] = h
 		l.pin(n)
 	}
+}
+
+func (l *live) beginPin(n string) *pinCall {
+	pc := &pinCall{invoke: l.w.Stamp()}
+	l.pinCalls[n] = append(l.pinCalls[n], pc)
+	return pc
+}
+
+func (l *live) endPin(pc *pinCall, ok bool) { pc.ret, pc.ok = l.w.Stamp(), ok }
+
+// pinExempt: the statement exempts, for one poll, a name first pinned by a
+// handle while that poll was in flight. Harness bookkeeping of a returning
+// call is delayed by its gate, so judge by call windows: exempt if no pinning
+// call had completed successfully before the epoch began and some pinning
+// call's [invoke, return] window overlaps the epoch.
+func (l *live) pinExempt(n string, start, end int64) bool {
+	overlap := false
+	for _, pc := range l.pinCalls[n] {
+		if pc.ret != 0 && pc.ret < start && pc.ok {
+			return false
+		}
+		if pc.invoke <= end && (pc.ret == 0 || pc.ret >= start) {
+			overlap = true
+		}
+	}
+	return overlap
 }
 
 func (l *live) pin(n string) {
@@ -485,6 +524,17 @@ func (l *live) knownNames() []string { return SortedKeys(l.prevDoc) }
 
 // ---- actions ----
 
+// pollErrors reads the store's public poll-error counter.
+func (l *live) pollErrors() string {
+	if l.w.Store == nil {
+		return ""
+	}
+	if v := l.w.Store.Metrics().Get("counter_poll_errors"); v != nil {
+		return v.String()
+	}
+	return ""
+}
+
 // epochKnown returns the names known when the current refresh epoch began.
 func (l *live) epochKnown(epoch int64) map[string]bool {
 	if l.epochSnap == nil || l.epochSnapAt != epoch {
@@ -502,8 +552,15 @@ func (l *live) tick() {
 	if w.InFlight() == 0 {
 		l.epochSnap = nil
 	}
+	errs0 := l.pollErrors()
 	w.OnTickDone = func(s int64) {
 		known = l.epochKnown(w.EpochStart())
+		if l.pollErrors() != errs0 {
+			// the poller swallows errors; the store's public metrics tell
+			// whether a round failed since this tick was sent
+			w.S.Probe("round-failed")
+			return
+		}
 		// the poller logs errors; success is visible as a completed round
 		l.afterRound(known, start, w.StampNow(), nil, true)
 	}
@@ -557,8 +614,10 @@ func (l *live) refresh() {
 func (l *live) afterRound(knownAtStart map[string]bool, _ int64, end int64, err error, poller bool) {
 	w := l.w
 	if poller {
-		// the poller swallows errors: find out from the request log whether
-		// the round failed
+		// The poller swallows errors. A round it shared may have started
+		// before the tick; the epoch covers every round that could still be
+		// running, so any failed poll request since the epoch began means the
+		// round may have failed: then nothing is demanded of it.
 		for _, r := range w.Svc.ReqsSince(w.EpochStart()) {
 			if r.Cond && r.Err != "" && r.Err != "value not changed" {
 				err = errors.New(r.Err)
@@ -566,19 +625,10 @@ func (l *live) afterRound(knownAtStart map[string]bool, _ int64, end int64, err 
 		}
 	}
 	start := w.EpochStart()
-	// coalescing: per epoch each name is polled at most once
-	seen := map[string]int{}
-	for _, r := range w.Svc.ReqsSince(start) {
-		if r.Cond {
-			seen[r.Name]++
-			if seen[r.Name] > 1 {
-				l.fail("coalesce", "secret %q was requested %d times within one refresh epoch (overlapping refreshes must share one round)", r.Name, seen[r.Name])
-			}
-		}
-	}
-	if len(seen) > 0 && w.InFlight() > 0 {
+	if w.InFlight() > 0 {
 		w.S.Probe("overlapping-refresh")
 	}
+	l.judgeCoalescing()
 	if err != nil {
 		w.S.Probe("round-failed")
 		return
@@ -590,7 +640,7 @@ func (l *live) afterRound(knownAtStart map[string]bool, _ int64, end int64, err 
 		if !still {
 			continue // dropped: C19's business
 		}
-		if !l.isDeclared[n] && l.expiry > 0 && l.pinnedAt[n] > start {
+		if !l.isDeclared[n] && l.expiry > 0 && l.pinExempt(n, start, end) {
 			// first pinned by a handle while this poll was in flight:
 			// covered from the next poll on (the statement's exemption)
 			w.S.Probe("pinned-during-poll")
@@ -605,6 +655,44 @@ func (l *live) afterRound(knownAtStart map[string]bool, _ int64, end int64, err 
 		}
 		if !ok {
 			l.fail("fresh", "refresh completed without error (epoch stamps [%d,%d]) but %q is at version %d; the service's active versions during the poll were %v", start, end, n, v, act)
+		}
+	}
+}
+
+// judgeCoalescing: overlapping refreshes share one round, so two rounds are
+// never in progress at once. A round is the goroutine that issues its
+// requests; its activity spans from its first request's start to its last
+// request's end. (Harness-side call accounting is delayed by return gates and
+// cannot be used here.)
+func (l *live) judgeCoalescing() {
+	type span struct{ first, last int64 }
+	spans := map[string]*span{}
+	var order []string
+	for _, r := range l.w.Svc.ReqsSince(l.coalesceFrom) {
+		if !r.Cond {
+			continue
+		}
+		end := r.End
+		if end == 0 {
+			end = 1 << 62
+		}
+		sp := spans[r.Task]
+		if sp == nil {
+			sp = &span{r.Start, end}
+			spans[r.Task] = sp
+			order = append(order, r.Task)
+		}
+		if end > sp.last {
+			sp.last = end
+		}
+	}
+	for i, a := range order {
+		for _, b := range order[i+1:] {
+			sa, sb := spans[a], spans[b]
+			if sa.first < sb.last && sb.first < sa.last {
+				l.fail("coalesce", "two refresh rounds were in progress at once (round %s: request stamps [%d,%d]; round %s: [%d,%d]): overlapping refreshes must share one round of requests", a, sa.first, sa.last, b, sb.first, sb.last)
+				return
+			}
 		}
 	}
 }
@@ -630,9 +718,11 @@ func (l *live) lookup() {
 	st := w.Store
 	gen := l.generation
 	w.Tracef("lookup %q", n)
+	pc := l.beginPin(n)
 	w.Spawn("lookup", func(*kernel.Task) {
 		h, err := st.LookupSecret(ctx, n)
 		w.Gate()
+		l.endPin(pc, err == nil && h != nil)
 		l.tasksBusy--
 		if err == nil && h != nil && gen == l.generation {
 			// C13: a lookup that installed a value rewrites the cache
@@ -830,10 +920,12 @@ func (l *live) newUpdater() {
 	st := w.Store
 	gen := l.generation
 	w.Tracef("NewUpdater(%q) failOn=%v", n, us.failOn)
+	pc := l.beginPin(n)
 	w.Spawn("newupd", func(*kernel.Task) {
 		us.invoked = w.Stamp()
 		u, err := setec.NewUpdater(ctx, st, n, build)
 		w.Gate()
+		l.endPin(pc, err == nil)
 		us.created = w.Stamp()
 		l.tasksBusy--
 		if err != nil || gen != l.generation {
